@@ -19,6 +19,13 @@
 (*   "threadlocal"  process-wide seed, per-thread stream counter - faulty  *)
 (*   "fork"         a child process starts from a copy of its parent's     *)
 (*                  generator - faulty                                     *)
+(*   "cloned"       a generator seeded once per process and handed out as  *)
+(*                  a *copy* that is never advanced (a `static` /          *)
+(*                  thread-local `rng.clone()`) - faulty: every call of    *)
+(*                  the process starts from the same state                 *)
+(*   "hedged"       no generator at all: the "nonce" is a hash of the      *)
+(*                  call's inputs, so two calls with equal inputs draw the *)
+(*                  same value (harness calls have equal inputs) - faulty  *)
 (* An ephemeral is <<seed, stream, index>>; NoReuse says no ephemeral is   *)
 (* ever output twice.                                                      *)
 (***************************************************************************)
@@ -57,6 +64,12 @@ BeginCall(x) ==
        [] Mode \in {"threadlocal", "fork"} ->
             /\ pc' = [pc EXCEPT ![x] = [@ EXCEPT !.st = "drawing", !.gen = <<300 + pseed[x[1]], tcount[x]>>, !.d = 0]]
             /\ tcount' = [tcount EXCEPT ![x] = @ + 1] /\ UNCHANGED <<pool, shared>>
+       [] Mode = "cloned" ->
+            /\ pc' = [pc EXCEPT ![x] = [@ EXCEPT !.st = "drawing", !.gen = <<500 + pseed[x[1]], 0>>, !.d = 0]]
+            /\ UNCHANGED <<pool, tcount, shared>>
+       [] Mode = "hedged" ->
+            /\ pc' = [pc EXCEPT ![x] = [@ EXCEPT !.st = "drawing", !.gen = <<600, 0>>, !.d = 0]]
+            /\ UNCHANGED <<pool, tcount, shared>>
        [] Mode = "static" ->
             \* read the shared position now, write it back in EndCall: no exclusion
             /\ pc' = [pc EXCEPT ![x] = [@ EXCEPT !.st = "drawing", !.gen = <<400 + pseed[x[1]], shared[x[1]]>>, !.d = 0, !.tmp = shared[x[1]]]]
